@@ -180,6 +180,7 @@ class XEvaluator(Evaluator):
         self.trace: List[tuple] = []
         self.class_attrs: Dict[tuple, Any] = {}
         self._yields: List[list] = []
+        self.opaque_classes: Optional[set] = set()      # classes never to interpret (None: interpret nothing outside the whitelist)
         self.ctor_hooks: Dict[str, Any] = {}            # class name -> callable(ev, args, kwargs) replacing / wrapping construction
         self._class_init_done = set()
         self._global_cache: Dict[tuple, Any] = {}
@@ -1231,7 +1232,21 @@ class XEvaluator(Evaluator):
                 self.invoke(init, [me] + list(args), kwargs)
             return me
         if cname not in self.interpreted and self.prog.classes[cname].mod.rel not in self.interpreted_modules:
-            return Obj(cname, _opaque=True, _args=list(args), _kwargs=dict(kwargs))
+            # any other plain class of the repository: its constructor is interpreted as well (arguments and defaults are
+            # bound as Python would); only when it leaves the evaluable subset is the instance an opaque stand-in
+            if self.opaque_classes is not None and cname in self.opaque_classes:
+                return Obj(cname, _opaque=True, _args=list(args), _kwargs=dict(kwargs))
+            try:
+                init = self.methods.get((cname, "__init__"))
+                me = Obj(cname, _opaque=True)
+                if init is not None:
+                    self.invoke(init, [me] + list(args), kwargs)
+                elif self.is_dataclass(cname):
+                    me = self._dataclass_new(cname, args, kwargs)
+                    me.__dict__["_opaque"] = True
+                return me
+            except Unsupported:
+                return Obj(cname, _opaque=True, _args=list(args), _kwargs=dict(kwargs))
         self._run_init_subclass(cname)
         init = self.methods.get((cname, "__init__"))
         if init is not None:
